@@ -54,7 +54,7 @@ func c14(c *Ctx) {
 	r.Explain = "BITS: every H265 header/FU/PACI/TSCI accessor is a pure bit function whose provenance vector is compared " +
 		"with the RFC 7798 tables (complete for that clause: equality of vectors is equality on all inputs); TSCI() assembly " +
 		"and the per-form parsers' header reads; payloader FU header construction. BOUNDS contract: a fragmented unit yields " +
-		">= 2 FUs. Reassembly equality over NAL sequences is not decided."
+		">= 2 FUs. Reassembly equality over NAL sequences is not decided. CTR: at least one full fragment before the FU loop (the strict clause is known finding D11b), S/E flags, aggregated unit size prefixes; left shifts in the payloader must not wrap."
 	n := 0
 	for _, a := range h265Accessors {
 		fn := p.Func(a.fn)
